@@ -99,6 +99,25 @@ fn run<G: Group>(sc: &Scenario, st: &mut RunStats) -> Vec<Violation> {
         let mut proof = match prove_mode::<G>(&m.ctx, &built.statement, &built.witness, &RngMode::Healthy(m.rng_seed)).0 {
             Ok(Ok(p)) => p,
             other => {
+                // the same capacity on a parameter object nothing has used yet: if that one proves, the refusal came
+                // from what an object of capacity c_p >= m had served before (objects are shared within a run)
+                crate::world::reset_params_cache();
+                let fresh = build(&cfg, &m.wit);
+                if matches!(prove_mode::<G>(&m.ctx, &fresh.statement, &fresh.witness, &RngMode::Healthy(m.rng_seed)).0, Ok(Ok(_))) {
+                    st.probe("prover_failure_retried_on_fresh_parameters");
+                    out.push(Violation::new(
+                        "prover_fails_on_used_parameters_of_sufficient_capacity",
+                        format!("cap_p={}", m.cap_prover),
+                        format!(
+                            "msg {} (m={}, capacity {}): parameters that served earlier messages of this run refuse to prove, a fresh object of the same capacity proves: {:?}",
+                            mi,
+                            m.m,
+                            m.cap_prover,
+                            other.map(|r| r.map(|_| ()))
+                        ),
+                    ));
+                    return out;
+                }
                 // is it the spare capacity, or can this statement not be proved at all (not C12's business)?
                 let eq_cfg = Config { cap: m.m, ..cfg };
                 let eq = build(&eq_cfg, &m.wit);
